@@ -116,6 +116,34 @@ impl Prop for C05 {
 			push_ops: true,
 			scale: 2,
 		};
+		if rng.chance(1, 12_000) {
+			// a block of more than 8 MiB (one value): beyond the window sizes decoders accept by default for the highest
+			// compression levels, beyond every internal buffer. Read back whole (slice) or through a std-like cursor.
+			let codec = match rng.below(8) {
+				0 => ref_container::Codec::Null,
+				1 => ref_container::Codec::Deflate(9),
+				2 => ref_container::Codec::Snappy,
+				3 => ref_container::Codec::Bzip2(9),
+				4 => ref_container::Codec::Xz(6),
+				_ => ref_container::Codec::Zstd(*rng.pick(&[19u8, 20, 21, 22])),
+			};
+			let spec = FileSpec {
+				schema: crate::ast::Ty::Bytes,
+				codec,
+				approx_block_size: *rng.pick(&[0u32, 64 * 1024, u32::MAX]),
+				sync: container::gen_sync(rng),
+				user_meta: vec![],
+				ops: vec![
+					Op::Blob { len: rng.below(100) as u32, seed: rng.next_u64(), compressible: true },
+					Op::Blob { len: 8 * 1024 * 1024 + 1 + rng.below(300_000) as u32, seed: rng.next_u64(), compressible: true },
+					Op::Blob { len: rng.below(100) as u32, seed: rng.next_u64(), compressible: false },
+				],
+				end: container::End::IntoInner,
+				owned_config: false,
+				via_write_all: false,
+			};
+			return Scn { spec, rk_seed: rng.next_u64(), n_kinds: 1, only_kind: Some(if rng.bool() { RKind::Slice } else { RKind::Cursor }) };
+		}
 		let mut spec = container::gen_filespec(rng, &profile);
 		container::maybe_via_write_all(rng, &mut spec);
 		Scn {
